@@ -59,6 +59,105 @@ func runC22(c *core.Check) {
 	if pk == nil || tpk == nil || gpk == nil {
 		return
 	}
+	if !precedenceRules(c, prog) {
+		return
+	}
+
+	// ---------- adjacency table: mayCombine ⊇ go/printer's
+	mine := combineTable(pk, core.FindFuncDecl(pk, "mayCombine"))
+	ref := combineTable(gpk, core.FindFuncDecl(gpk, "mayCombine"))
+	if mine == nil || ref == nil {
+		c.Undecided("adjacency", "mayCombine", 0, "cannot read the token adjacency table of printer.mayCombine or of go/printer.mayCombine")
+		return
+	}
+	var rk []string
+	for k := range ref {
+		rk = append(rk, k)
+	}
+	sort.Strings(rk)
+	for _, k := range rk {
+		c.Decide(mine[k], "adjacency", k, 0, "", "go/printer separates this token pair with a blank (they would otherwise fuse into another token, e.g. `- -x` into `--x`), xgo's printer.mayCombine no longer does: a synthesized unary-under-binary or unary-under-unary expression prints as a different token sequence")
+	}
+	c.Floor("adjacency", 8)
+	c.Analysed("adjacency_entries_reference", len(ref))
+	c.Analysed("adjacency_entries_xgo", len(mine))
+}
+
+// combineTable reads `switch prev { case token.K: b = next == 'c' || next == 'd' … }` into "K:c" entries.
+func combineTable(pk *packages.Package, fd *ast.FuncDecl) map[string]bool {
+	if fd == nil {
+		return nil
+	}
+	info := pk.TypesInfo
+	out := map[string]bool{}
+	found := false
+	ast.Inspect(fd.Body, func(n ast.Node) bool {
+		sw, ok := n.(*ast.SwitchStmt)
+		if !ok {
+			return true
+		}
+		found = true
+		for _, s := range sw.Body.List {
+			cc := s.(*ast.CaseClause)
+			var toks []string
+			for _, e := range cc.List {
+				if k := constOf(info, e); k != nil {
+					toks = append(toks, k.Name())
+				}
+			}
+			var bytes []string
+			for _, st := range cc.Body {
+				ast.Inspect(st, func(m ast.Node) bool {
+					if be, ok := m.(*ast.BinaryExpr); ok && be.Op == token.EQL {
+						if tv := info.Types[be.Y]; tv.Value != nil && tv.Value.Kind() == constant.Int {
+							v, _ := constant.Int64Val(tv.Value)
+							bytes = append(bytes, string(rune(v)))
+						}
+					}
+					return true
+				})
+			}
+			for _, t := range toks {
+				for _, b := range bytes {
+					out[t+":"+b] = true
+				}
+			}
+		}
+		return false
+	})
+	if !found {
+		// `return prev == token.INT && next == '.'` style
+		ast.Inspect(fd.Body, func(n ast.Node) bool {
+			be, ok := n.(*ast.BinaryExpr)
+			if !ok || be.Op != token.LAND {
+				return true
+			}
+			l, ok1 := ast.Unparen(be.X).(*ast.BinaryExpr)
+			r, ok2 := ast.Unparen(be.Y).(*ast.BinaryExpr)
+			if ok1 && ok2 && l.Op == token.EQL && r.Op == token.EQL {
+				if k := constOf(info, l.Y); k != nil {
+					if tv := info.Types[r.Y]; tv.Value != nil && tv.Value.Kind() == constant.Int {
+						v, _ := constant.Int64Val(tv.Value)
+						out[k.Name()+":"+string(rune(v))] = true
+						found = true
+					}
+				}
+			}
+			return true
+		})
+	}
+	if !found {
+		return nil
+	}
+	return out
+}
+
+// precedenceRules: the operand-precedence and binaryExpr rules (shared by C19 and C22). Returns false when the rule cannot run.
+func precedenceRules(c *core.Check, prog *core.Prog) bool {
+	pk, tpk := prog.Pkg("./printer"), prog.Pkg("./token")
+	if pk == nil || tpk == nil {
+		return false
+	}
 	info := pk.TypesInfo
 	// sanity: the constants the table is written against
 	for name, want := range map[string]int64{"HighestPrec": 7, "UnaryPrec": 6, "LowestPrec": 0} {
@@ -69,12 +168,12 @@ func runC22(c *core.Check) {
 		}
 		if v != want {
 			c.Undecided("operand-prec", "token."+name, 0, core.Sprintf("token.%s = %d, the rule table assumes %d", name, v, want))
-			return
+			return false
 		}
 	}
 	printerT := prog.NamedType("./printer", "printer")
 	if printerT == nil {
-		return
+		return false
 	}
 	// print sites: calls of printer methods whose first argument is V.F with V a node pointer
 	type site struct {
@@ -242,91 +341,5 @@ func runC22(c *core.Check) {
 		c.Decide(rightOK, "binary", "right-operand", fd.Pos(), "right operand printed at prec+1", "the right operand of a binary expression is not printed with minimum precedence `prec+1`: `a - (b - c)` synthesized without ParenExpr prints as `a - b - c`")
 	}
 
-	// ---------- adjacency table: mayCombine ⊇ go/printer's
-	mine := combineTable(pk, core.FindFuncDecl(pk, "mayCombine"))
-	ref := combineTable(gpk, core.FindFuncDecl(gpk, "mayCombine"))
-	if mine == nil || ref == nil {
-		c.Undecided("adjacency", "mayCombine", 0, "cannot read the token adjacency table of printer.mayCombine or of go/printer.mayCombine")
-		return
-	}
-	var rk []string
-	for k := range ref {
-		rk = append(rk, k)
-	}
-	sort.Strings(rk)
-	for _, k := range rk {
-		c.Decide(mine[k], "adjacency", k, 0, "", "go/printer separates this token pair with a blank (they would otherwise fuse into another token, e.g. `- -x` into `--x`), xgo's printer.mayCombine no longer does: a synthesized unary-under-binary or unary-under-unary expression prints as a different token sequence")
-	}
-	c.Floor("adjacency", 8)
-	c.Analysed("adjacency_entries_reference", len(ref))
-	c.Analysed("adjacency_entries_xgo", len(mine))
-}
-
-// combineTable reads `switch prev { case token.K: b = next == 'c' || next == 'd' … }` into "K:c" entries.
-func combineTable(pk *packages.Package, fd *ast.FuncDecl) map[string]bool {
-	if fd == nil {
-		return nil
-	}
-	info := pk.TypesInfo
-	out := map[string]bool{}
-	found := false
-	ast.Inspect(fd.Body, func(n ast.Node) bool {
-		sw, ok := n.(*ast.SwitchStmt)
-		if !ok {
-			return true
-		}
-		found = true
-		for _, s := range sw.Body.List {
-			cc := s.(*ast.CaseClause)
-			var toks []string
-			for _, e := range cc.List {
-				if k := constOf(info, e); k != nil {
-					toks = append(toks, k.Name())
-				}
-			}
-			var bytes []string
-			for _, st := range cc.Body {
-				ast.Inspect(st, func(m ast.Node) bool {
-					if be, ok := m.(*ast.BinaryExpr); ok && be.Op == token.EQL {
-						if tv := info.Types[be.Y]; tv.Value != nil && tv.Value.Kind() == constant.Int {
-							v, _ := constant.Int64Val(tv.Value)
-							bytes = append(bytes, string(rune(v)))
-						}
-					}
-					return true
-				})
-			}
-			for _, t := range toks {
-				for _, b := range bytes {
-					out[t+":"+b] = true
-				}
-			}
-		}
-		return false
-	})
-	if !found {
-		// `return prev == token.INT && next == '.'` style
-		ast.Inspect(fd.Body, func(n ast.Node) bool {
-			be, ok := n.(*ast.BinaryExpr)
-			if !ok || be.Op != token.LAND {
-				return true
-			}
-			l, ok1 := ast.Unparen(be.X).(*ast.BinaryExpr)
-			r, ok2 := ast.Unparen(be.Y).(*ast.BinaryExpr)
-			if ok1 && ok2 && l.Op == token.EQL && r.Op == token.EQL {
-				if k := constOf(info, l.Y); k != nil {
-					if tv := info.Types[r.Y]; tv.Value != nil && tv.Value.Kind() == constant.Int {
-						v, _ := constant.Int64Val(tv.Value)
-						out[k.Name()+":"+string(rune(v))] = true
-						found = true
-					}
-				}
-			}
-			return true
-		})
-	}
-	if !found {
-		return nil
-	}
-	return out
+	return true
 }
